@@ -155,6 +155,27 @@ def build(tier='quick'):
     b.fn('idx/unpack2', idx, 'i', 'a, b = (1, 2, 3)[:i]\nreturn a + b')
     b.fn('idx/mul', b.inputs('mulidx', one(['-1', '0', '1', '3', 'True', 'None', '1.0'])), 'i', "return [[1, 2] * i, 'ab' * i, (1,) * i, b'x' * i]")
 
+    # ---------------------------------------------------------------- wraparound window: C-integer and object indices over
+    # the complete window [-3*len-1, 2*len+1] for lengths 0..3, typed and untyped receivers (never thinned)
+    WCONT = {'list': ['[]', '[10]', '[10, 20]', '[10, 20, 30]'], 'tuple': ['()', '(10,)', '(10, 20)', '(10, 20, 30)'],
+             'str': ["''", "'a'", "'ab'", "'ab\\xe9'"], 'bytes': ["b''", "b'a'", "b'ab'", "b'abc'"],
+             'bytearray': ["bytearray(b'')", "bytearray(b'a')", "bytearray(b'ab')", "bytearray(b'abc')"]}
+    for cname, conts in WCONT.items():
+        wkey = b.inputs('widx_' + cname, [(c, repr(i)) for n, c in enumerate(conts) for i in range(-3 * n - 1, 2 * n + 2)])
+        ckey = b.inputs('wcont_' + cname, one(conts))
+        for rann, rs in (('c', 'u'), ('c: ' + cname, 't')):
+            for iann, isx in (('i', 'o'), ('i: cython.Py_ssize_t', 'c'), ('i: cython.int', 'n')):
+                b.fn('widx/get/%s/%s%s' % (cname, rs, isx), wkey, '%s, %s' % (rann, iann), 'return c[i]')
+                if cname in ('list', 'bytearray'):
+                    b.fn('widx/set/%s/%s%s' % (cname, rs, isx), wkey, '%s, %s' % (rann, iann), 'c[i] = 65\nreturn c')
+                    b.fn('widx/del/%s/%s%s' % (cname, rs, isx), wkey, '%s, %s' % (rann, iann), 'del c[i]\nreturn c')
+                    b.fn('widx/aug/%s/%s%s' % (cname, rs, isx), wkey, '%s, %s' % (rann, iann), 'c[i] += 1\nreturn c')
+            # the index is a C integer by inference: a range() loop compiled to a C loop
+            b.fn('widx/loop/%s/%s' % (cname, rs), ckey, rann,
+                 'n = len(c)\nout = []\nfor i in range(-3 * n - 1, 2 * n + 2):\n    try:\n        out.append(c[i])\n    except IndexError:\n        out.append("E")\nreturn out')
+            b.fn('widx/const/%s/%s' % (cname, rs), ckey, rann,
+                 'out = []\nfor k in (0, 1, 2, 3):\n    try:\n        out.append([c[-1], c[-2], c[-3], c[-4], c[-7]][k])\n    except IndexError:\n        out.append("E")\nreturn out')
+
     # ---------------------------------------------------------------- comparisons
     for ex in ['x < y', 'x <= y', 'x == y', 'x != y', 'x > y', 'x >= y', 'x is y', 'x is not y', 'x < y < 3', 'x == y == 1', '0 <= x < y', 'x in (y, 1)',
                'x not in [y]', '(x, y) < (y, x)', '[x, y] == [y, x]', 'x == y or x < y', 'not (x == y) and x is not None', 'sorted([x, y])',
